@@ -1204,3 +1204,113 @@ Proof.
   change bs with (apply_rrels be [] bs) at 2 3.
   apply parser_reloc_lemma; auto. apply trace_ok_nil.
 Qed.
+
+(* ------------------------------------------------------------------ one relocatable read *)
+
+Definition reloc_method (be : bool) (w : N) (f : list byte -> res (N * list byte)) : Prop :=
+  f = read_address w be \/ f = read_sized_offset w be \/ (exists fmt, w = word_size fmt /\ f = read_word fmt be).
+
+Lemma reloc_method_sized be w f : reloc_method be w f -> sized_reader be w f.
+Proof.
+  intros [->|[->|(fmt & -> & ->)]].
+  - apply sized_read_address.
+  - apply sized_read_sized_offset.
+  - apply sized_read_word.
+Qed.
+
+Lemma prim_reloc_lemma : forall (be dbg : bool) (R : list rrel) (bs : list byte) (base : N) (o l : nat) (w : N) f,
+  sites_disjointb R = true -> reloc_method be w f -> (o + l <= length bs)%nat ->
+  let x := mkRrd (mkRd base bs) (mkRd (base + N.of_nat o) (slice bs o l)) in
+  let P := apply_rrels be R bs in
+  let t := rr_rel dbg w f (fun pos v => Ok (relocate R pos v)) x in
+  trace_ok R (fst t) ->
+  out_reloc (snd t) = out_plain (mkRd base P) (rd_lift f (mkRd (base + N.of_nat o) (slice P o l))).
+Proof.
+  intros be dbg R bs base o l w f HR Hm Hb x P t Ht.
+  apply res_rel_out. apply rel_case; auto.
+  - now apply reloc_method_sized.
+  - exists o, l. auto.
+Qed.
+
+Lemma sites_pairwise R : forall r1 r2,
+  sites_disjointb R = true -> In r1 R -> In r2 R ->
+  r1 = r2 \/ site_disjoint r1 (rr_pos r2) (rr_w r2).
+Proof.
+  induction R as [|r0 R IH]; intros r1 r2 Hd H1 H2; [destruct H1|].
+  apply sites_disjointb_cons in Hd as [Hd0 Hd].
+  destruct H1 as [->|H1], H2 as [->|H2]; auto.
+  - right. specialize (Hd0 r2 H2). unfold site_disjoint in *. lia.
+Qed.
+
+(* explicit form: a relocation (pos, w, addend) of the set, a field of that width at pos holding v:
+   the relocating read returns v (+) addend, and so does the plain read of the pre-applied section *)
+Lemma prim_reloc_value_lemma : forall (be dbg : bool) (R : list rrel) (bs : list byte) (base : N) (r : rrel) (l : nat) f,
+  sites_disjointb R = true -> (forall r', In r' R -> 1 <= rr_w r') -> In r R ->
+  reloc_method be (rr_w r) f ->
+  (rr_w r = 1 \/ rr_w r = 2 \/ rr_w r = 4 \/ rr_w r = 8) ->
+  let o := N.to_nat (rr_pos r) in
+  let k := N.to_nat (rr_w r) in
+  (k <= l)%nat -> (o + l <= length bs)%nat ->
+  let v := dec_un be (slice bs o k) in
+  rrel_value r v < 2 ^ (8 * rr_w r) ->
+  let x := mkRrd (mkRd base bs) (mkRd (base + rr_pos r) (slice bs o l)) in
+  let P := apply_rrels be R bs in
+  snd (rr_rel dbg (rr_w r) f (fun pos v => Ok (relocate R pos v)) x) =
+    Ok (rrel_value r v, mkRrd (mkRd base bs) (mkRd (base + rr_pos r + rr_w r) (slice bs (o + k) (l - k)))) /\
+  rd_lift f (mkRd (base + rr_pos r) (slice P o l)) =
+    Ok (rrel_value r v, mkRd (base + rr_pos r + rr_w r) (slice P (o + k) (l - k))).
+Proof.
+  intros be dbg R bs base r l f HR Hw1 Hin Hm Hw o k Hkl Hb v Hfit x P.
+  assert (Hs : sized_reader be (rr_w r) f) by now apply reloc_method_sized.
+  assert (Hfk : forall w, f w = read_un k be w).
+  { destruct Hs as [(k' & _ & Hk' & Hf)|(e & He)].
+    - intros w. rewrite Hf. f_equal. unfold k. lia.
+    - exfalso. destruct Hm as [->|[->|(fmt & E & ->)]].
+      + specialize (He (repeat x00 8)). unfold read_address in He.
+        destruct Hw as [E|[E|[E|E]]]; rewrite E in He; cbn in He; discriminate.
+      + specialize (He (repeat x00 8)). unfold read_sized_offset in He.
+        destruct Hw as [E|[E|[E|E]]]; rewrite E in He; cbn in He; discriminate.
+      + specialize (He (repeat x00 8)). unfold read_word in He. destruct fmt; cbn in He; discriminate. }
+  assert (Hx : x = mkRrd (mkRd base bs) (mkst base bs o l)).
+  { unfold x, mkst. do 3 f_equal. unfold o. lia. }
+  assert (Htr : trace_ok R [EvRel (N.of_nat o) (rr_w r) v]).
+  { constructor; [|constructor]. cbn [ev_ok]. split.
+    - intros r' Hr' Hp'.
+      destruct (sites_pairwise R r' r HR Hr' Hin) as [->|Hd]; auto.
+      exfalso. pose proof (Hw1 r' Hr'). unfold site_disjoint, o in *. lia.
+    - intros r' Hr' Hp'.
+      destruct (sites_pairwise R r' r HR Hr' Hin) as [->|Hd].
+      + exfalso. apply Hp'. unfold o. lia.
+      + unfold site_disjoint, o in *. lia. }
+  assert (Hlift : rd_lift f (mkst base bs o l) = Ok (v, mkst base bs (o + k) (l - k))).
+  { apply (rd_lift_mkst R base f bs o l v k Hb Hkl). rewrite Hfk. now apply (read_un_slice be R). }
+  assert (Hrel : snd (rr_rel dbg (rr_w r) f (fun pos v => Ok (relocate R pos v)) x) =
+    Ok (rrel_value r v, mkRrd (mkRd base bs) (mkst base bs (o + k) (l - k)))).
+  { rewrite Hx. unfold rr_rel. cbn [reader section]. rewrite (offset_from_mkst dbg R bs base o l Hb).
+    rewrite Hlift. cbn [snd bind]. do 2 f_equal.
+    apply relocate_unique; auto; try (unfold o; lia). }
+  assert (Hgen := prim_reloc_lemma be dbg R bs base o l (rr_w r) f HR Hm Hb).
+  cbn zeta in Hgen.
+  assert (Hfst : fst (rr_rel dbg (rr_w r) f (fun pos v => Ok (relocate R pos v))
+                  (mkRrd (mkRd base bs) (mkRd (base + N.of_nat o) (slice bs o l)))) = [EvRel (N.of_nat o) (rr_w r) v]).
+  { change (mkRd (base + N.of_nat o) (slice bs o l)) with (mkst base bs o l).
+    unfold rr_rel. cbn [reader section]. rewrite (offset_from_mkst dbg R bs base o l Hb).
+    rewrite Hlift. reflexivity. }
+  rewrite Hfst in Hgen. specialize (Hgen Htr).
+  change (mkRd (base + N.of_nat o) (slice bs o l)) with (mkst base bs o l) in Hgen.
+  rewrite <- Hx, Hrel in Hgen.
+  split.
+  - rewrite Hrel. unfold mkst. do 4 f_equal. unfold o, k. lia.
+  - assert (HbP : (o + l <= length P)%nat) by (unfold P; now rewrite apply_rrels_length).
+    assert (E2 : f (slice P o l) = Ok (dec_un be (slice P o k), skipn k (slice P o l)))
+      by (rewrite Hfk; now apply (read_un_slice be R)).
+    replace (mkRd (base + rr_pos r) (slice P o l)) with (mkst base P o l)
+      by (unfold mkst; f_equal; unfold o; lia).
+    fold P in Hgen.
+    change (mkRd (base + N.of_nat o) (slice P o l)) with (mkst base P o l) in Hgen.
+    rewrite (rd_lift_mkst R base f P o l _ k HbP Hkl E2) in *.
+    unfold out_reloc, out_plain in Hgen. cbn [bind reader section off] in Hgen.
+    injection Hgen as Hv _.
+    f_equal. f_equal; [congruence|].
+    unfold mkst. f_equal. unfold o, k. lia.
+Qed.
